@@ -33,8 +33,8 @@ func init() {
 		Required:      []string{"config:i-nav", "config:i-navns", "config:ii", "config:iii-rejected", "config:iii-nil-accepted", "fn:name", "fn:local-name", "fn:namespace-uri", "match:different-prefix-same-uri", "rebinding"},
 		Families: []Family{
 			witnessFamily("C14"),
-			{Name: "paths", N: tierN(120000, 1500000), Run: c14Paths},
-			{Name: "funcs", N: tierN(60000, 800000), Run: c14Funcs},
+			{Name: "paths", N: tierN(120000, 6000000), Run: c14Paths},
+			{Name: "funcs", N: tierN(60000, 3000000), Run: c14Funcs},
 		},
 	})
 }
